@@ -29,6 +29,9 @@ pub enum Op {
     Flush,
     CumAck { arrival: u16, off: u32 },
     SrtlaAck { arrival: u16, offs: Vec<u32> },
+    /// the same SRTLA ACK, but waiting on the uplink channel behind `pad` other datagrams (a backlog longer than one
+    /// drain pass of 64) and handled by the real drain_packet_queue
+    AckBehind { arrival: u16, offs: Vec<u32>, pad: u8 },
     Nak { arrival: u16, items: Vec<(u32, u8)>, direct: bool },
     Reset { link: u16, kind: u8 },
     Remove { link: u16 },
@@ -124,6 +127,7 @@ pub fn strategy(which: Which, max_ops: usize) -> impl Strategy<Value = Case> {
         7 => Just(Op::Flush),
         3 => (any::<u16>(), ack_off()).prop_map(|(arrival, off)| Op::CumAck { arrival, off }),
         4 => (any::<u16>(), vec(off(), 1..6)).prop_map(|(arrival, offs)| Op::SrtlaAck { arrival, offs }),
+        1 => (any::<u16>(), vec(off(), 1..6), prop_oneof![Just(63u8), Just(64), Just(65), 0u8..200]).prop_map(|(arrival, offs, pad)| Op::AckBehind { arrival, offs, pad }),
         if which == Which::C05 { 8 } else { 4 } => (any::<u16>(), vec((off(), prop_oneof![4 => Just(0u8), 1 => 1u8..6]), 1..5), any::<bool>())
             .prop_map(|(arrival, items, direct)| Op::Nak { arrival, items, direct }),
         1 => (any::<u16>(), 0u8..4).prop_map(|(link, kind)| Op::Reset { link, kind }),
@@ -414,16 +418,29 @@ pub fn check(case: &Case, obs: &mut Obs, which: Which) -> CheckResult {
                 }
                 high_ack = Some(high_ack.map_or(a, |h| h.max(a)));
             }
-            Op::SrtlaAck { arrival, offs } => {
+            Op::SrtlaAck { arrival, offs } | Op::AckBehind { arrival, offs, .. } => {
                 if nl == 0 {
                     continue;
                 }
+                let pad = if let Op::AckBehind { pad, .. } = op { Some(*pad) } else { None };
                 let ai = idx(*arrival, nl);
                 let acid = sh.st.conns[ai].conn_id;
                 let list: Vec<u32> = offs.iter().map(|o| sq(case, *o)).collect();
                 let before: BTreeMap<u64, BTreeSet<u32>> = model.iter().map(|(k, m)| (*k, m.held.clone())).collect();
                 let win_before: Vec<(u64, i32, bool, bool)> = sh.st.conns.iter().map(|c| (c.conn_id, c.window, c.connected, c.last_received.is_some())).collect();
-                sh.uplink_pkt(ai, &srtla_ack_pkt(&list));
+                if let Some(pad) = pad {
+                    for _ in 0..pad {
+                        sh.enqueue_uplink(ai, &[0x80, 0x06, 0, 0, 0, 0, 0, 0, 0, 0, 0, 0, 0, 0, 0, 0]);
+                    }
+                    sh.enqueue_uplink(ai, &srtla_ack_pkt(&list));
+                    for _ in 0..(pad as usize / 64 + 2) {
+                        sh.drain_queue();
+                    }
+                    let _ = sh.drain_client();
+                    obs.class(if pad >= 64 { "ack-behind-a-backlog-longer-than-one-drain-pass" } else { "ack-behind-a-short-backlog" });
+                } else {
+                    sh.uplink_pkt(ai, &srtla_ack_pkt(&list));
+                }
                 // per distinct seq: which links lost it
                 let mut uniq = list.clone();
                 uniq.sort();
